@@ -9,6 +9,10 @@ class S(param.Parameterized):
     v = param.Integer(0)
     w = param.Integer(1)
 
+    @param.depends("v")
+    def plus_one(self):
+        return self.v + 1
+
 
 class T(param.Parameterized):
     p = param.Integer(1, bounds=(0, 5), allow_refs=True)
@@ -41,6 +45,8 @@ class System:
             return self.s[r["s"]].param.v
         if k == "paramw":
             return self.s[r["s"]].param.w
+        if k == "meth":
+            return self.s[r["s"]].plus_one
         if k == "bind1":
             return param.bind(_inc, self.s[r["s"]].param.v)
         if k == "bind2":
